@@ -52,6 +52,11 @@ pub const STREAMS: &[(&str, usize, usize)] = &[
     // checked, or an inference variable resolved later / never) × every place a pattern can sit × match / let, through EVERY
     // entry point. The counts are placeholders: the parent uses the length of the catalogue (harness/src/patcat.rs)
     ("pat-scrut", 0, 0),
+    // the fuel-limit catalogue of C12 (harness/src/c12.rs::fuel_limit_inputs: lookahead-only scans, frames that look
+    // while they unwind, consuming loops, followers of an out-of-fuel construct, sized from the fuel measured on the
+    // real parser) — here the texts the parser reports at least one diagnostic for (or panics on), so that `compile`
+    // stops at the parser: no panic, no hang, tree covers the text, ranges inside. Count = length of the catalogue
+    ("fuel-limit", 0, 0),
     // features with known findings: kept out of the streams above so they cannot mask anything
     ("known-polyrec", 6, 12),
     ("known-artifact-core-ir", 200, 3000),
@@ -723,6 +728,10 @@ fn build_case(stream: &str, idx: usize, seed: u64, thorough: bool, corpus: &[(St
                 None => ("none".into(), Case::Text(String::new())),
             }
         }
+        "fuel-limit" => match fuel_catalogue(thorough).get(idx) {
+            Some((name, text)) => (name.clone(), Case::Text(text.clone())),
+            None => ("none".into(), Case::Text(String::new())),
+        },
         "regress" => {
             let mut files: Vec<PathBuf> = std::fs::read_dir(util::verif_root().join("corpus/C04"))
                 .map(|rd| rd.filter_map(|e| e.ok().map(|e| e.path())).filter(|p| p.file_name().is_some_and(|n| n.to_string_lossy().starts_with("regress-"))).collect())
@@ -1019,6 +1028,21 @@ fn run_text(w: &Watch, key: crash::Key, dir: &Path, src: &str, tally: &mut Tally
             push_panic("compile", p, out)
         }
     }
+}
+
+/// the fuel-limit catalogue restricted to texts that do not get past the parser (a diagnostic, or a panic)
+fn fuel_catalogue(thorough: bool) -> &'static Vec<(String, String)> {
+    static CAT: std::sync::OnceLock<Vec<(String, String)>> = std::sync::OnceLock::new();
+    CAT.get_or_init(|| {
+        crate::c12::fuel_limit_inputs(thorough)
+            .into_iter()
+            .filter(|(_, text, _)| {
+                let r = std::panic::catch_unwind(|| parser::parse(Path::new("fuel.gom"), text).diagnostics().len());
+                !matches!(r, Ok(0))
+            })
+            .map(|(name, text, _)| (name, text))
+            .collect()
+    })
 }
 
 fn arity_catalogue(thorough: bool) -> &'static Vec<crate::arity::ArityCase> {
@@ -1427,6 +1451,7 @@ fn child(args: &util::Args, stream: &str, from: usize, to: usize, outfile: &Path
         {
             let outs: Vec<String> = tally.outcomes.iter().map(|(k, v)| format!("{}={}", k, v)).collect();
             let keep_tag = full_entry_stream(stream) || stream == "occurs" || stream == "gen-ok" || stream == "gen-ill" || stream == "nest" || stream == "layout" || stream.contains("artifact");
+            let keep_tag = stream == "call-arity" || stream == "fuel-limit" || stream == "occurs" || stream == "gen-ok" || stream == "gen-ill" || stream == "nest" || stream == "layout" || stream.contains("artifact");
             let _ = writeln!(f, "R\t{}\t{}\t{}\t{}", stream, idx, outs.join(" "), if keep_tag { esc_line(&tag) } else { String::new() });
             tally.outcomes.clear();
         }
@@ -1594,6 +1619,8 @@ pub fn main(args: &util::Args) {
             (arity_catalogue(thorough).len(), arity_catalogue(thorough).len())
         } else if *name == "pat-scrut" {
             (pat_catalogue(thorough).len(), pat_catalogue(thorough).len())
+        } else if *name == "fuel-limit" {
+            (fuel_catalogue(thorough).len(), fuel_catalogue(thorough).len())
         } else {
             (*q, *t)
         };
